@@ -260,6 +260,14 @@ func (date Date) safeParse(s string) time.Time {
 	return d
 }
 
+// canParse reports whether safeParse would succeed. It is needed because the
+// first day of the year 1 is itself the zero time.
+func (date Date) canParse(s string) bool {
+	_, err := time.Parse("_2 1 2006", s)
+
+	return err == nil
+}
+
 // Time returns the minimum or maximum (depending on IsEndOfRange)
 // representation of the Date as a Go Time instance.
 func (date Date) Time() time.Time {
@@ -287,7 +295,7 @@ func (date Date) Time() time.Time {
 
 	// If the safeParse could not parse the date it will return a zero date.
 	// Make sure we don't try to adjust the zero date.
-	if date.IsEndOfRange && !result.IsZero() {
+	if date.IsEndOfRange && (!result.IsZero() || date.canParse(d)) {
 		switch {
 		case date.Day != 0:
 			result = result.AddDate(0, 0, 1)
